@@ -473,7 +473,8 @@ pub fn spec_strategy() -> impl Strategy<Value = VtxSpec> {
         any::<u32>(),
         1u8..=255,
         any::<u16>(),
-        proptest::array::uniform5("[ -~]{0,40}"),
+        // (text fields: usually short; now and then together longer than the decoder's 256-byte window)
+        prop_oneof![4 => proptest::array::uniform5("[ -~]{0,40}"), 1 => proptest::array::uniform5("[ -~]{0,300}")],
         prop_oneof![
             8 => proptest::collection::vec(frame_strategy(), 0..=400),
             1 => proptest::collection::vec(frame_strategy(), 4600..=5000),
@@ -496,18 +497,34 @@ pub fn run(run: &mut Run) {
     run.explore("schedule", t.pick(24_000, 600_000), || case_strategy(300_000), check_schedule);
     run.explore("chunking", t.pick(3_000, 60_000), || case_strategy(40_000), check_chunking);
     run.explore("decode", t.pick(6_000, 100_000), spec_strategy, check_decode);
+    // tracks longer than 65535 frames (frame counters are not 16-bit)
+    let mut long = Vec::new();
+    for (stereo, extra) in [(false, 11usize), (true, 1)] {
+        let frames: Vec<[u8; 14]> = (0..65_536 + extra)
+            .map(|i| {
+                let mut f = [0u8; 14];
+                for (r, b) in f.iter_mut().enumerate() {
+                    *b = ((i * 7 + r * 31) >> (r % 3)) as u8;
+                }
+                f[13] = if i % 5 == 0 { 0xFF } else { f[13] & 0x0F };
+                f
+            })
+            .collect();
+        long.push(Case { frames, rate: 8000, pf: 250, stereo, ym: false, mode: if stereo { 1 } else { 0 }, frequency: 1_773_400, partition: vec![100_000, 7, 4096] });
+    }
+    run.enumerate("long-track", long, false, check_schedule);
 }
 
 pub fn replay(run: &mut Run, phase: &str, case: &serde_json::Value) -> Result<(), String> {
     match phase {
-        "schedule" => run.replay_one::<Case, _>(phase, case, check_schedule),
+        "schedule" | "long-track" => run.replay_one::<Case, _>(phase, case, check_schedule),
         "chunking" => run.replay_one::<Case, _>(phase, case, check_chunking),
         "decode" => run.replay_one::<VtxSpec, _>(phase, case, check_decode),
         _ => Err(format!("unknown phase {}", phase)),
     }
 }
 
-pub const RULE: &str = "cases = (register log of 0..400 frames with R13=0xFF in half of them, sample rate 8000..96000, player frequency 1..255, mono/stereo, cyclic partition of the output into 1..12 buffer lengths from {1,2,3,odd,spf-1,spf,spf+1,2spf+1,huge,uniform}); non-trivial = >=3 frames and a partition with >=3 distinct buffer lengths at least one of which is not a multiple of samples-per-frame (decode phase: >=3 frames with >=2 distinct frame contents); distinct = hash of the whole case";
+pub const RULE: &str = "cases = (register log of 0..400 frames with R13=0xFF in half of them, sample rate 8000..96000, player frequency 1..255, mono/stereo, cyclic partition of the output into 1..12 buffer lengths from {1,2,3,odd,spf-1,spf,spf+1,2spf+1,huge,uniform}); non-trivial = >=3 frames and a partition with >=3 distinct buffer lengths at least one of which is not a multiple of samples-per-frame (decode phase: >=3 frames with >=2 distinct frame contents); distinct = hash of the whole case long-track: two tracks of more than 65536 frames (mono and stereo) are played to the end under the same schedule oracle. decode: text fields of up to 300 characters each, readers with short reads.";
 pub const ASSUMPTIONS: &[&str] = &[
     "the AymBackend trait is the seam at which register writes are observed (recording backend)",
     "literal-only LH5 encoder of the harness produces streams a conforming LH5 decoder accepts",
